@@ -21,6 +21,12 @@ MODELLED = ("remote.go Remote.fetch reference logic: referenceStorageFromRefs, c
             "Exercised, not modelled: getHaves, the pkt-line codecs (C34/C35), the v0/v1/v2 servers (UploadPack, serveFetchV2), "
             "the file transport, spawned git upload-pack / go-git serving a git client, pack encoding and indexing. "
             "Not exercised: git://, http(s) and ssh sockets (no network in the sandbox)")
+LEVEL_NOTE = ("partial by design (DESIGN.md §4.C36): the theorems cover the protocol core on the model — refspec mapping and its "
+              "inverse, want computation, the per-reference update rule, pruning, termination of the negotiation loop against any "
+              "server, completeness of a pack selected by revlist.Objects (C37), the shallow walk (sound; equality with git's boundary "
+              "refuted) — tied to remote.go / negotiate.go / upload_pack.go by differential execution; sockets, processes, HTTP, the "
+              "v0/v1/v2 servers' wire handling and the git-as-peer pairings are exercised by suite wire, not proved. trusted: Coq "
+              "8.16.1 kernel; the correspondence harness; git 2.39.5 as the reference peer")
 TRUSTED = [
     "C-impl refs: Remote.FetchContext through a scripted transport (client.WithTransport) that hands over every server object vs Model/FetchProto.fetch: verdict, wants, final local references",
     "C-impl neg: transport.NegotiatePack against a scripted server (acknowledgement table) vs Model/FetchProto.negotiate: the have batches, done flags, request re-sending of every round",
